@@ -1300,7 +1300,16 @@ func (schema *Schema) visitEnumOperation(settings *schemaValidationSettings, val
 					return
 				}
 			case int64:
-				if v == float64(c) {
+				if v == float64(c) || reflect.DeepEqual(v, value) {
+					return
+				}
+			case int32:
+				// (the parameter decoders produce int32 for format int32)
+				if v == float64(c) || reflect.DeepEqual(v, value) {
+					return
+				}
+			case int:
+				if v == float64(c) || reflect.DeepEqual(v, value) {
 					return
 				}
 			default:
